@@ -884,7 +884,8 @@ def r02_s(ctx):
     """clauses of the \\u / surrogate decoding and of the raw-control-byte rejection that the accept-exactly property needs
     (shared with C09)"""
     from . import c09
-    for fn in (c09.r09_3, c09.r09_4, c09.r09_6, c09.r09_8):
+    # r09_2: the hex digit planes - an invalid digit of a \\u escape is rejected only if its table entry carries the marker
+    for fn in (c09.r09_2, c09.r09_3, c09.r09_4, c09.r09_6, c09.r09_8):
         ctx.include(fn, 'R02.S')
 
 
